@@ -29,8 +29,12 @@ def scenarios(lengths):
     frag = (ref.server_frame(2, a[:100], fin=0) + ref.server_frame(9, b'mid1') + ref.server_frame(0, b'', fin=0) +
             ref.server_frame(0, a[100:250], fin=0) + ref.server_frame(10, b'mid2') + ref.server_frame(0, a[250:], fin=1))
     out.append(('binary in 4 fragments (one empty) with Ping and Pong between them', [('ping', b'mid1'), ('pong', b'mid2'), ('binary', a)], frag))
-    frag2 = ref.server_frame(1, tb[:7], fin=0) + ref.server_frame(0, tb[7:200], fin=0) + ref.server_frame(9, b'x') + ref.server_frame(0, tb[200:], fin=1)
-    out.append(('text in 3 fragments cut inside a multi-byte character, Ping before the last', [('ping', b'x'), ('text', text)], frag2))
+    # both fragment boundaries fall INSIDE a multi-byte character (offset 2: inside 'é'; offset 202: inside '€')
+    assert tb[1:3] == 'é'.encode() and tb[201:204] == '€'.encode()
+    frag2 = ref.server_frame(1, tb[:2], fin=0) + ref.server_frame(0, tb[2:202], fin=0) + ref.server_frame(9, b'x') + ref.server_frame(0, tb[202:], fin=1)
+    out.append(('text in 3 fragments cut inside multi-byte characters, Ping between the last two', [('ping', b'x'), ('text', text)], frag2))
+    frag3 = ref.server_frame(1, tb[:2], fin=0) + ref.server_frame(10, b'\xff\xfe') + ref.server_frame(0, tb[2:], fin=1)
+    out.append(('text in 2 fragments cut inside a multi-byte character, Pong with a non-UTF-8 payload between them', [('pong', b'\xff\xfe'), ('text', text)], frag3))
     seq = (ref.server_frame(1, b'one') + frag + ref.server_frame(2, b) + ref.server_frame(2, c[:40000], fin=0) + ref.server_frame(0, c[40000:], fin=1) +
            ref.server_frame(9, b'') + ref.server_frame(1, b''))
     out.append(('sequence: text, fragmented binary, binary, 70000-byte binary in 2 fragments, empty ping, empty text',
